@@ -409,3 +409,12 @@ func (m *Model) SortedNIs() []string {
 	sort.Strings(out)
 	return out
 }
+
+// Clone returns an independent copy (entries themselves are immutable).
+func (m *Model) Clone() *Model {
+	c := &Model{Default: m.Default, NIs: m.NIs, Tab: make(map[Key]*Entry, len(m.Tab)), FwdRefs: m.FwdRefs}
+	for k, v := range m.Tab {
+		c.Tab[k] = v
+	}
+	return c
+}
